@@ -683,7 +683,10 @@ def compare_request(sw, dc, conn_d, cr_blind=False):
                     (not b or b[0] is None) and len(a) == len(b) and \
                     all(x is None and y is None or
                         (isinstance(x, str) and not hasattr(x, 'cimtype') and
-                         y is not None and str(x) == str(y))
+                         y is not None and (
+                             str(x) == str(y) or
+                             (isinstance(y, bool) and
+                              x.lower() == str(y).lower())))
                         for x, y in zip(a, b)):
                 # an array that starts with NULL travels without type; the
                 # server could not type it (its class or method does not
